@@ -1016,12 +1016,27 @@ func (in *inliner) stmt(s ast.Stmt, labelled bool) {
 			in.stmt(x.Else, true) // an else-if cannot be wrapped in a block of its own textually; leave its header alone
 		}
 	case *ast.ForStmt:
-		if x.Cond != nil && in.findCall(x.Cond) != nil {
+		if x.Cond != nil && in.mentionsCallee(x.Cond) {
 			// `for c() { … }` becomes `for { if !(c()) { break }; … }`: the call is then in an if header, where the next
 			// round expands it (the condition is still evaluated before every iteration, after the post statement)
-			cond := in.text(x.Cond)
+			// a conjunction is tested conjunct by conjunct, which keeps the short-circuit order
+			var conj []ast.Expr
+			var split func(e ast.Expr)
+			split = func(e ast.Expr) {
+				if be, ok := ast.Unparen(e).(*ast.BinaryExpr); ok && be.Op == token.LAND {
+					split(be.X)
+					split(be.Y)
+					return
+				}
+				conj = append(conj, e)
+			}
+			split(x.Cond)
+			tests := ""
+			for _, e := range conj {
+				tests += "\nif !(" + in.text(e) + ") {\nbreak\n}"
+			}
 			in.edits = append(in.edits, textEdit{in.off(x.Cond.Pos()), in.off(x.Cond.End()), ""})
-			in.edits = append(in.edits, textEdit{in.off(x.Body.Lbrace) + 1, in.off(x.Body.Lbrace) + 1, "\nif !(" + cond + ") {\nbreak\n}\n"})
+			in.edits = append(in.edits, textEdit{in.off(x.Body.Lbrace) + 1, in.off(x.Body.Lbrace) + 1, tests + "\n"})
 			return
 		}
 		if !labelled && x.Init != nil {
@@ -1898,4 +1913,20 @@ func (in *inliner) exprInline(root ast.Node) {
 		in.notes = append(in.notes, fmt.Sprintf("call of new one-expression function %s in %s (%s) replaced by its expression", ce.obj.FullName(), in.cur.Name.Name, in.c.Pos(call.Pos())))
 		return false
 	})
+}
+
+
+// mentionsCallee: some call in e (outside function literals) is a call of a helper that is to be expanded.
+func (in *inliner) mentionsCallee(e ast.Expr) bool {
+	found := false
+	ast.Inspect(e, func(n ast.Node) bool {
+		if _, ok := n.(*ast.FuncLit); ok {
+			return false
+		}
+		if call, ok := n.(*ast.CallExpr); ok && in.callees[calleeObj(in.p, call)] != nil {
+			found = true
+		}
+		return !found
+	})
+	return found
 }
